@@ -2,7 +2,7 @@
 import re
 
 from lib_facts import fn_name
-from lib_flow import strip_refs, expr_calls, expr_str, sensitive_paths, PathEval
+from lib_flow import strip_refs, expr_calls, expr_str, sensitive_paths, PathEval  # noqa: F401
 from lib_inter import deep_leaves
 from roles import roles
 from c01 import d_loc
@@ -28,19 +28,77 @@ def path_return(body, path):
     return pe, pe.local_expr(0)
 
 
-def classify_upper(ctx, b, pe, hi, counter, need_heap):
+def return_cases(ctx, b, pe, ret):
+    """The (lower, upper) pairs a size_hint return expression can evaluate to:
+    a tuple aggregate -> one case; Option::unwrap_or(Option::map(opt, closure), default) -> the default tuple and every
+    return path of the closure.  -> [(label, lo, hi, body, path_eval, extra_leaves)] or None."""
+    if ret[0] == "agg" and ret[1] == "tuple" and len(ret[2]) == 2:
+        return [("tuple", ret[2][0], ret[2][1], b, pe, set())]
+    if ret[0] == "call" and re.search(r"core::option::Option::<.*>::unwrap_or$", ret[1] or "") and len(ret[2]) == 2:
+        opt, dflt = ret[2]
+        out = []
+        if dflt[0] == "agg" and dflt[1] == "tuple" and len(dflt[2]) == 2:
+            out.append(("fallback", dflt[2][0], dflt[2][1], b, pe, set()))
+        else:
+            return None
+        if opt[0] == "call" and re.search(r"core::option::Option::<.*>::map$", opt[1] or "") and opt[2][1][0] == "agg" and opt[2][1][1].startswith("closure:"):
+            cl = opt[2][1]
+            cb = ctx.facts.bodies.get(cl[1][len("closure:"):])
+            if cb is None:
+                return None
+            extra = set()
+            for cap in cl[2]:
+                extra |= _leaves(ctx, b, pe, cap)
+            cfl = ctx.flow(cb)
+            n = 0
+            for kind, path, know in sensitive_paths(cb, cfl, 2):
+                if kind != "return":
+                    continue
+                cpe = PathEval(cb, path)
+                r2 = cpe.local_expr(0)
+                if not (r2[0] == "agg" and r2[1] == "tuple" and len(r2[2]) == 2):
+                    return None
+                n += 1
+                out.append(("present#%d" % n, r2[2][0], r2[2][1], cb, cpe, extra))
+            return out
+        return None
+    return None
+
+
+def classify_upper(ctx, b, pe, hi, counter, need_heap, extra=frozenset()):
     """-> (ok, description)"""
     if hi[0] == "agg" and hi[1].endswith("Option::None"):
         return True, "None (no upper bound)"
     if hi[0] == "call" and re.search(r"checked_add$", hi[1] or ""):
         lv = set()
         for a in hi[2]:
-            lv |= _leaves(ctx, b, pe, a)
+            la = _leaves(ctx, b, pe, a)
+            lv |= la
+            # a closure capture (`(*_1).N`) stands for the captured value
+            if any(x[0] == "param" for x in la):
+                lv |= set(extra)
         has_q = ("field", counter) in lv
         has_heap = any(x[0] == "call" and re.search(r"BinaryHeap::<.*>::len$", x[1] or "") for x in lv)
         ok = has_q and (has_heap or not need_heap)
         return ok, "checked_add over {%s}; in-flight counter: %s%s" % (
             ", ".join(sorted(expr_str(a) for a in hi[2])), has_q, ("; parked heap: %s" % has_heap) if need_heap else "")
+    if hi[0] == "call" and re.search(r"core::option::Option::<.*>::(and_then|map)$", hi[1] or "") and len(hi[2]) == 2:
+        cl = hi[2][1]
+        if cl[0] == "agg" and cl[1].startswith("closure:"):
+            cb = ctx.facts.bodies.get(cl[1][len("closure:"):])
+            if cb is not None:
+                cfl = ctx.flow(cb)
+                ret = cfl.local_expr(0)
+                lv = deep_leaves(ctx, cb, ret, 3)
+                for cap in cl[2]:
+                    lv |= _leaves(ctx, b, pe, cap)
+                uses_checked = any(re.search(r"checked_add$", c[1] or "") for c in expr_calls(ret)) or \
+                    (ret[0] == "call" and re.search(r"checked_add$", ret[1] or ""))
+                has_q = ("field", counter) in lv
+                has_heap = any(x[0] == "call" and re.search(r"BinaryHeap::<.*>::len$", x[1] or "") for x in lv)
+                ok = uses_checked and has_q and (has_heap or not need_heap) and hi[1].endswith("and_then")
+                return ok, "upper.and_then(|x| x.checked_add(q)) form; checked_add: %s, in-flight counter: %s%s" % (
+                    uses_checked, has_q, ("; parked heap: %s" % has_heap) if need_heap else "")
     if hi[0] == "agg" and hi[1].endswith("Option::Some"):
         v = hi[2][0]
         lv = _leaves(ctx, b, pe, v)
@@ -81,10 +139,18 @@ def r17_1(ctx, R, counter):
                 continue
             k += 1
             pe, ret = path_return(b, path)
-            if not (ret[0] == "agg" and ret[1] == "tuple" and len(ret[2]) == 2):
+            cases = return_cases(ctx, b, pe, ret)
+            if cases is None:
                 ctx.ob("R17.1", b, "returns-a-tuple#%d" % k, False, d_loc(b), expr_str(ret))
                 continue
-            lo, hi = ret[2]
+            if len(cases) > 1:
+                for ci, (lab, lo_, hi_, cb_, pe_, extra) in enumerate(cases):
+                    okc, detc = classify_upper(ctx, cb_, pe_, hi_, counter, need_heap, extra)
+                    ctx.ob("R17.1", b, "upper-bound-covers-in-flight#path%d/%s" % (k, lab), okc, d_loc(b), detc)
+                    rawc = [e for e in _binops(lo_) + _binops(hi_) if e[1] in ("Add", "AddWithOverflow", "Mul", "MulWithOverflow", "AddUnchecked", "Sub", "SubWithOverflow")]
+                    ctx.ob("R17.2", b, "no-unchecked-arithmetic#path%d/%s" % (k, lab), not rawc, d_loc(b), "; ".join(expr_str(e) for e in rawc[:2]))
+                continue
+            lab, lo, hi, cb_, pe, extra = cases[0]
             ok, det = classify_upper(ctx, b, pe, hi, counter, need_heap)
             ctx.ob("R17.1", b, "upper-bound-covers-in-flight#path%d" % k, ok, d_loc(b), det, path=path if not ok else None)
             lo_ok = (lo[0] == "const" and lo[2] == "0") or (lo[0] == "call" and re.search(r"saturating_add$", lo[1] or "") is not None)
@@ -100,7 +166,7 @@ def r17_1(ctx, R, counter):
             # R17.2: no raw arithmetic in either component
             raw = [e for e in _binops(lo) + _binops(hi) if e[1] in ("Add", "AddWithOverflow", "Mul", "MulWithOverflow", "AddUnchecked", "Sub", "SubWithOverflow")]
             ctx.ob("R17.2", b, "no-unchecked-arithmetic#path%d" % k, not raw, d_loc(b), "; ".join(expr_str(e) for e in raw[:2]))
-        ctx.floor("R17.1", "paths:" + b.path, k, 2)
+        ctx.floor("R17.1", "paths:" + b.path, k, 1)
     ctx.floor("R17.1", "adapter-size_hints", n, 4)
 
 
